@@ -241,7 +241,18 @@ def pools_engine(prop, tier, replay, t0):
                           workers=16, timeout=3600)
         vlib.tlc_ok(mc, 'ZogPools/interleavings')
         mc_desc = 'ZogPools Procs={1,2} MaxCalls=1 Kinds=%s: every interleaving of pool operations; invariants NoStaleRead, ExclusiveOwner' % kinds
-        st = vlib.harness(['pools', '-concurrent', '4', '-episodes', '400' if thorough else '60', '-calls', '3', '-seed', str(vlib.seed()), '-out', trace])
+        try:
+            st = vlib.harness(['pools', '-concurrent', '4', '-episodes', '400' if thorough else '60', '-calls', '3', '-seed', str(vlib.seed()), '-out', trace])
+        except Inconclusive as ex:
+            # the Go runtime kills the process on unrecoverable concurrency faults inside the library: that IS a C08 violation
+            if 'fatal error: concurrent map' in str(ex) or 'fatal error: all goroutines are asleep' in str(ex):
+                os.makedirs(vlib.REPLAY, exist_ok=True)
+                path = '%s/C08-fatal.txt' % vlib.REPLAY
+                open(path, 'w').write(str(ex))
+                print('VIOLATION property=C08 replay=%s' % path)
+                log('  concurrent calls on a shared schema crashed the process: ' + str(ex)[-300:])
+                return 1
+            raise
         # the Go memory model is outside TLA+: the same episodes, free-running, under the race detector
         rb = build_race_harness()
         rr = vlib.subprocess.run([rb, 'pools', '-concurrent', '8', '-episodes', '600' if thorough else '80', '-calls', '4', '-seed', str(vlib.seed()),
@@ -514,3 +525,17 @@ def c03_engine(prop, tier, replay, t0):
 
 
 ENGINES['C03'] = c03_engine
+
+
+def c20_engine(prop, tier, replay, t0):
+    vlib.build_harness()
+    verdicts, st, g, res, trace, nrows = table_run('Tab_C20', 'predtab')
+    return report_table(prop, tier, t0, ['C20'], verdicts, st, g, res, trace, nrows, 'Tab_C20',
+                        'rows = (built-in test, parameter, subject) triples over boundary domains: byte/rune string shapes and slice lengths around n; numeric subjects in halves around the parameter; '
+                        'membership sets; all words over {a,b} up to length 3 for HasPrefix/HasSuffix/Contains/Match; ASCII class-edge characters for ContainsUpper/Digit/Special; equal instants in different zones; '
+                        'token grammars for Email/UUID/URL; every triple runs in Parse and Validate and under Not() where the API offers it; distinct = table rows',
+                        ['Email/UUID/URL/Match are checked on token alphabets, not on all strings', 'the concretisation of symbolic subjects (shapeString, charByName, uuidByName) is trusted harness code'],
+                        replay=bool(replay), known=vlib.load_known())
+
+
+ENGINES['C20'] = c20_engine
